@@ -15,6 +15,8 @@ def plan(ctx):
     NA = int(os.environ.get('C16_NA', '0')) or (6 if ctx.quick() else 9)
     cfgs = [('lua', {}, {}), ('lua_lf', {'C16_EOL': 'lf'}, {'C16_POL': 1}), ('lua_crlf', {'C16_EOL': 'crlf'}, {'C16_POL': 2}),
             ('custom', {'C16_OPEN': "'{'", 'C16_MARK': "'#'", 'C16_CLOSE': "'}'"}, {'C16_OPEN': "'{'", 'C16_MARK': "'#'", 'C16_CLOSE': "'}'", 'C16_ALPHA': '"{{#}}}\\n\\rax"'}),
+            # bracket characters with the high bit set (negative as plain char): comparisons must not mix char and unsigned char
+            ('latin1', {'C16_OPEN': "'\\xab'", 'C16_MARK': "'\\xb7'", 'C16_CLOSE': "'\\xbb'"}, {'C16_OPEN': '0xab', 'C16_MARK': '0xb7', 'C16_CLOSE': '0xbb', 'C16_ALPHA': '"\\xab\\xab\\xb7\\xbb\\xbb\\n\\rax"'}),
             ('content_any', {'C16_CONTENT_ANY': 1}, {'C16_CONTENT': 1}), ('content_notx', {'C16_CONTENT_NOTX': 1}, {'C16_CONTENT': 2})]
     qs = []
     for name, cxd, hd in cfgs:
